@@ -121,6 +121,7 @@ Lemma pbuild_S n a b t :
       | None => None
       | Some i => if is_snil i then Some PINil else fromseqc_loop n i (FSE body)
       end
+  | PWhen p s => if interp_pp p (a, b) then pbuild n a b s else Some PINil
   end.
 Proof. reflexivity. Qed.
 Lemma sbuild_S n a b t :
@@ -141,6 +142,7 @@ Lemma sbuild_S n a b t :
       | None => None
       | Some i => if is_pnil i then Some SINil else toseqc_loop n i (TSE body)
       end
+  | SWhen p s => if interp_pp p (a, b) then sbuild n a b s else Some SINil
   end.
 Proof. reflexivity. Qed.
 
@@ -506,6 +508,12 @@ Proof.
       exists (S N). intros n Hn. destruct n as [|n]; [lia|]. apply HN. lia.
     + apply IHs.
     + intros n. reflexivity.
+  - (* PWhen: nil when the guard fails, else the body *) intros p s IH a b. cbn [pden].
+    destruct (interp_pp p (a, b)) eqn:Hp.
+    + destruct (IH a b) as (i & (N & HN) & HR). exists i. split; [|exact HR].
+      exists (S N). intros n Hn. destruct n as [|n]; [lia|]. rewrite pbuild_S, Hp. apply HN. lia.
+    + exists PINil. split; [|reflexivity].
+      apply Ev_const. intros n. rewrite pbuild_S, Hp. reflexivity.
   - (* SFrom *) intros v a b. exists (SIElem v). split; [apply Ev_const; intros n; apply sbuild_S | apply spos_elem].
   - (* SSlice *) intros xs a b. exists (sfrom_slice xs). split; [apply Ev_const; intros n; apply sbuild_S | apply srepr_from_slice].
   - (* SArgK *) intros a b. exists (SIElem a). split; [apply Ev_const; intros n; apply sbuild_S | apply spos_elem].
@@ -522,6 +530,12 @@ Proof.
       exists (S N). intros n Hn. destruct n as [|n]; [lia|]. apply HN. lia.
     + apply IHs.
     + intros n. reflexivity.
+  - (* SWhen *) intros p s IH a b. cbn [sden].
+    destruct (interp_pp p (a, b)) eqn:Hp.
+    + destruct (IH a b) as (i & (N & HN) & HR). exists i. split; [|exact HR].
+      exists (S N). intros n Hn. destruct n as [|n]; [lia|]. rewrite sbuild_S, Hp. apply HN. lia.
+    + exists SINil. split; [|reflexivity].
+      apply Ev_const. intros n. rewrite sbuild_S, Hp. reflexivity.
 Qed.
 
 Definition pbuild_ok := proj1 build_ok_both.
